@@ -110,6 +110,22 @@ theorem C11_writable_map_sound (nd0 : Bool) (l : List Svc) :
     ∀ e ∈ (load nd0 l).writable, ∃ s ∈ l, s.uuid = e.1 ∧ s.url = e.2 ∧ s.ro = false :=
   load_writable nd0 l
 
+/-- A long-lived client that is given service lists one after the other (second
+`LoadKeepServicesFromJSON`, refreshed discovery answer) holds, after the last one, exactly the maps
+and `replicasPerService` a fresh client would build from that last list: nothing of an earlier
+list survives (a service that turned read-only is no longer writable, one that turned writable is).
+In particular the writable map is sound for the last list. -/
+theorem C11_reload_last_wins (nd0 : Bool) (ls : List (List Svc)) (l : List Svc) :
+    (reload nd0 (ls ++ [l])).core = (load false l).core ∧
+    (∀ e ∈ (reload nd0 (ls ++ [l])).writable, ∃ s ∈ l, s.uuid = e.1 ∧ s.url = e.2 ∧ s.ro = false) := by
+  have h := reload_last nd0 ls l
+  refine ⟨h, ?_⟩
+  have hw : (reload nd0 (ls ++ [l])).writable = (load false l).writable := by
+    simp only [Roots.core, Prod.mk.injEq] at h
+    exact h.2.2.1
+  rw [hw]
+  exact load_writable false l
+
 /-- The retry rule. (a) a service is asked in round k+1 only if its round-k answer was processed
 and was transient (connection error, 408, 429, 5xx other than 503) — so 400/403/503/200 answers are
 never retried; (b) no request is made after round `Retries`; (c) with distinct services, no service
@@ -523,6 +539,10 @@ example : ∃ loc n s, put { want := 1, rps := 0, retries := 1, script := fun x 
     (by intro x k hx; have : x = 1 := by simpa using hx
         subst this; exact ⟨_, _, _, rfl⟩)
     (by decide)
+/-- `C11_reload_last_wins`: service a turns read-only, service b turns into a writable proxy -/
+example : (reload false [[⟨['a'], ['h'], 1, false, "disk".toList, false⟩, ⟨['b'], ['g'], 1, false, "disk".toList, true⟩],
+                         [⟨['a'], ['h'], 1, false, "disk".toList, true⟩, ⟨['b'], ['g'], 1, false, "proxy".toList, false⟩]]).writable
+    = [(['b'], "http://g:1".toList)] := by decide
 /-- `C11_seq_independent`: service 1 refuses the first put with 503 and accepts the second -/
 example : (putSeq [({ want := 1, rps := 1, retries := 0, script := fun _ _ => ⟨503, 1, []⟩ }, [0, 1], []),
                    (c3, [0, 2, 1], [0, 0])]).map (fun r => r.map (·.1)) =
